@@ -199,6 +199,9 @@ type Property struct {
 	// Replicas is the number of independent processes groups that each run the
 	// whole case list (digests are compared across replicas). 0 means 1.
 	Replicas func(tier string) int
+	// AltBinLastReplica names a second child binary (e.g. built with another Go
+	// toolchain); when it exists in the bin directory the last replica runs it.
+	AltBinLastReplica string
 	// Race requests the -race build of the child.
 	Race bool
 	// ChildEnv adds environment variables for children.
